@@ -52,10 +52,33 @@ pub fn random_case(rng: &mut Rng) -> Case {
     let mut ids: Vec<&str> = ID_POOL.to_vec();
     rng.shuffle(&mut ids);
     let few_ranks: &[u16] = if rng.coin() { &[0, 0, 1] } else { &[0, 1, 1, 2, 7] };
+    // in a third of the cases some rules carry triggers that the one request satisfies (client ip inside several
+    // ranges of the same rule, method list, header condition): such rules sit in several buckets of the router
+    let with_triggers = rng.chance(1, 3);
     let rules = (0..n.min(ids.len()))
         .map(|i| {
             let mut r = rule_from_grid(ids[i], *rng.pick(few_ranks), random_grid(rng));
             r.path = Template::parse("/a");
+            if with_triggers && rng.coin() {
+                use IpSpec::{In, NotIn};
+                match rng.below(6) {
+                    0 => r.ips = Some(vec![In("10.0.0.0/8".into()), In("10.1.0.0/16".into())]),
+                    1 => r.ips = Some(vec![In("10.1.0.0/16".into()), In("10.1.2.3/32".into()), In("10.0.0.0/8".into())]),
+                    2 => r.ips = Some(vec![In("10.0.0.0/8".into()), NotIn("192.168.0.0/16".into())]),
+                    3 => r.methods = Some(vec!["GET".into(), "POST".into()]),
+                    4 => {
+                        r.headers = vec![HeaderCond {
+                            name: "X-A".into(),
+                            kind: "is_defined".into(),
+                            value: None,
+                        }]
+                    }
+                    _ => {
+                        r.ips = Some(vec![In("10.0.0.0/8".into()), In("10.1.0.0/16".into())]);
+                        r.methods = Some(vec!["GET".into()]);
+                    }
+                }
+            }
             r
         })
         .collect();
@@ -129,7 +152,12 @@ pub fn check(case: &Case) -> Result<Stats, String> {
     // (ii) routers with permuted insertion orders, (iii) different update histories with the same live set
     let cfg = Cfg::plain();
     let config = cfg.build();
-    let request = ReqSpec::get("/a").build(&config);
+    // the one request satisfies every trigger the generator hands out
+    let mut rich = ReqSpec::get("/a");
+    rich.ip = Some("10.1.2.3".to_string());
+    rich.method = Some("GET".to_string());
+    rich.headers = vec![("X-A".to_string(), "Foo".to_string())];
+    let request = rich.build(&config);
     let n_routers = if k <= 6 { 6 } else { 3 };
     for variant in 0..n_routers {
         let mut order: Vec<usize> = (0..k).collect();
